@@ -1,5 +1,5 @@
 # C14 - template substitution replaces exactly the placeholders and nothing else (Tier A: in-process).
-# Bounded exhaustive: every template made of <= 3 (quick) / <= 4 (thorough) fragments of a 30-fragment alphabet
+# Bounded exhaustive: every template made of <= 3 (quick) / <= 4 (thorough) fragments of a 32-fragment alphabet
 # (de-duplicated on the resulting text) x 100 data sets (A, B each bound to one of 10 values) x formats
 # {meson, cmake, cmake@}, the real do_conf_str executed on every element.  Four oracles:
 #  (1) marker differential (meson format): the output for real values must equal the output obtained with inert
@@ -30,7 +30,10 @@ FRAGS = ['@A@', '@B@', '@U@', '@', '@@', '\\@', '\\\\', '\\\\\\', '\\@A\\@', '\\
          # non-ASCII "word" characters are not name characters: these are plain text in every format
          '@\u00e9@', '\\@\u00e9\\@',
          # the ${VAR} spelling in the value of a define: a placeholder in 'cmake', plain text in 'cmake@' (@ONLY)
-         '#cmakedefine A ${B}']
+         '#cmakedefine A ${B}',
+         # characters str.splitlines() would break a line at, but which are not line endings of a text file: plain text everywhere,
+         # also on the line of a define directive
+         '\x0c', '\u2028']
 VALUES = ['v', '', '@B@', '\\\\@B@', '${B}', 'x y', 10, 0, True, False]
 DATASETS = [(a, b) for a in VALUES for b in VALUES]
 FORMATS = ['meson', 'cmake', 'cmake@']
@@ -1072,7 +1075,7 @@ def main():
     if ck.args.replay:
         return replay(ck)
     maxlen = ck.q(3, 4)
-    ck.require(len(FRAGS) == 30 and len(set(FRAGS)) == 30, 'alphabet is not 30 distinct fragments')
+    ck.require(len(FRAGS) == 32 and len(set(FRAGS)) == 32, 'alphabet is not 32 distinct fragments')
     ck.require(not any('\r' in f.replace('\r\n', '') for f in FRAGS), 'lone CR in the alphabet')
     ncal = calibrate(ck)
     ck.part('calibration', pinned_expectations_reproduced_by_reference=ncal)
@@ -1140,7 +1143,7 @@ def main():
     ck.sample({'template': TEMPLATES[nt - 7][0], 'fragments': [FRAGS[i] for i in TEMPLATES[nt - 7][1]], 'formats': FORMATS})
     ck.finish(evaluations=tot.get('evaluations', 0) + nfile + nhead + ntb,
               distinct_nontrivial=len(classes) + hclasses,
-              rule='every sequence of <= %d fragments from the 30-fragment alphabet (%d sequences, %d distinct texts) x 100 data sets '
+              rule='every sequence of <= %d fragments from the 32-fragment alphabet (%d sequences, %d distinct texts) x 100 data sets '
                    '(A,B in %r) x formats %s through the real do_conf_str (+ marker-structure runs for the meson format); do_conf_file on all '
                    'texts <= 2 fragments; dump_conf_header on all ordered key tuples <= 2 x values x description and all permutations of '
                    '3..%d keys x {c,nasm,json} x macro guard; tier B: all texts <= 2 fragments x data x formats through configure_file() of a real meson setup. distinct_nontrivial = number of distinct (format, set of reference line '
